@@ -63,6 +63,8 @@ func VxC18LockDiscipline() {
 			other = NewSimpleInMemoryStore()
 		}
 		other.Add(atoms[2])
+		// a second predicate in the merged-in store: the merge must still be one critical section
+		other.Add(ast.NewAtom("zz_other", ast.Number(1)))
 		c.Merge(other)
 	case 5:
 		c.ListPredicates()
